@@ -686,11 +686,15 @@ class Util:
         Returns True or False.
         """
         try:
-            num = int(num)
+            int_num = int(num)
         except (TypeError, ValueError):
             return False
 
-        return num != 0 and ((num & (num - 1)) == 0)
+        if isinstance(num, float) and int_num != num:
+            # 4.5 is not a power of two (int() would truncate it to 4)
+            return False
+
+        return int_num != 0 and ((int_num & (int_num - 1)) == 0)
 
     @staticmethod
     def db_to_gain(db: float) -> float:
